@@ -100,6 +100,8 @@ fn suffix(case: &Case, exec: &Exec) -> String {
 fn run_local(case: &Case, out: &mut Out) {
   vtime::install();
   vtime::reset();
+  // field `unit us`: one virtual tick is a microsecond (default: a millisecond)
+  vtime::set_unit_nanos(if case.has("unit") && case.field("unit")[0].atom() == "us" { 1_000 } else { 1_000_000 });
   let ctx = LCtx::default();
   let exec = Exec::new(Queue::Local(ctx.sched.clone()));
   let log = Rc::new(RefCell::new(Vec::<Notif>::new()));
@@ -171,6 +173,8 @@ fn run_local(case: &Case, out: &mut Out) {
 fn run_threads(case: &Case, out: &mut Out) {
   vtime::install();
   vtime::reset();
+  // field `unit us`: one virtual tick is a microsecond (default: a millisecond)
+  vtime::set_unit_nanos(if case.has("unit") && case.field("unit")[0].atom() == "us" { 1_000 } else { 1_000_000 });
   let ctx = TCtx::default();
   let exec = Exec::new(Queue::Shared(ctx.sched.clone()));
   if case.has("locktrace") {
